@@ -222,9 +222,55 @@ PENDING = {p: "static check designed (DESIGN §4) but not built yet in this sess
            for p in ALL}  # overridden by CLAIMED / NOT_APPLICABLE
 
 
+# clauses added after the third round of seeded changes / newly found defects (DESIGN 9.13, 9.4 #19-22); appended to the claim texts
+ADDENDA = {
+    "C01": "Also: the inverse permutation `trans.index(p)` takes a native position; negative positions are normalised with the leg count of "
+           "their own index space; a result whose signature/fusion records were already reordered through `trans` resets it; parallel "
+           "per-block sequences (struct.t, struct.D, slices) that are zipped were narrowed by the same selection (engine seqsel); no call "
+           "passes two of the caller's names for each other's parameter.",
+    "C02": "Also: remove_leg's total charge involves the signature of the removed leg; the axis-range guard shared by tensordot/trace accepts "
+           "exactly 0..ndim-1 (evaluated on witness axes); the E3 additions listed under C01.",
+    "C03": "Also: the mask test ranges over every leg; the fusion-tree parsers pop their parallel stacks in lock-step; the E3 additions listed "
+           "under C01.",
+    "C04": "Also: the leg groups of the factorisations go through the pending permutation in the right direction (index typing in the scope of "
+           "svd/qr/eig/eigh/moveaxis); the (signature, hfs, mfs) triples are discovered from the results, not from local names.",
+    "C05": "Also: the tables of open edges and pending swaps are renumbered by the same maps; every insertion into the Z2 set of pending swaps "
+           "is a toggle; the legs whose parity swap_gate reads are addressed through the pending permutation in the right direction.",
+    "C06": "Also: -psi, number*psi and psi/number agree with psi*(..) as rational identities in number and |number| (complex scalars); the "
+           "virtual leg that absorbs the total charge of a site tensor is the first one.",
+    "C08": "Also: the discarded weights are composed so that kept weights multiply (inductive polynomial invariant, any spelling); canonize_ "
+           "absorbs a central block before every orthogonalize_site_ (typestate on the CFG). Floating-point cancellation in an algebraically "
+           "identical composition is NOT decided.",
+    "C09": "Also: every Heff sibling carries the operator's factor on every path; the local eigenproblem is solved for which='SR' for every "
+           "option set (defaults of dmrg_ and of eigs); the maps handed to eigs are homogeneous in their argument.",
+    "C10": "Also: the local generators handed to expmv are homogeneous in their argument (no affine term); composition constants written as "
+           "expressions are evaluated numerically.",
+    "C13": "Also: the relative tolerance refers to the maximum of the very values compared; selection by comparison with the K-th largest "
+           "value (ties) is a violation; a dict-valued per-sector limit of the partial-SVD policies is looked up by a key depending on the "
+           "same options (nU, sU) as the S-sector charges; K == 0 protection is decided on the CFG.",
+    "C14": "Also: parallel per-block sequences narrowed by the same selection (seqsel), converse of I2, inverse-permutation typing.",
+    "C15": "Also: library calls allowed to overwrite their operand (scipy overwrite_a/overwrite_b=True) count as writes into that operand.",
+    "C16": "Also: no parameter of a memoised function is an instance of a stateful identity-hashed class (Tensor, MPS, ...); the fermionic "
+           "flag vector handed to the memoised sign computations has one (boolean) encoding on every path.",
+    "C17": "Also: an option resolved by self-delegation forwards every other parameter (to_dict(resolve_ops=True) keeps meta); every key a "
+           "reader tests for presence is also read; the generic split/combine traversals order keys in a way defined for the mixed "
+           "int/tuple keys of an MPS with a central block.",
+    "C18": "Also: every value of the requested Krylov dimension of expmv is bounded by the maximum its controller tests for; every step is "
+           "bounded by the remaining time (accepted steps add up to |t|); the right-hand side of lin_solver's projected problem is the "
+           "norm of the residual the basis starts from.",
+    "C19": "Also: guards written as raise-in-loop and a modulus held in a module-level constant are evaluated alike; sorted storage of (t, D) "
+           "is decided by evaluating the two store expressions on a witness list of pairs.",
+    "C20": "Also: f_ordered is the column-major total order on all integer sites (interpreted on 3200 witness pairs); site-addressed reads of "
+           "the stored data go through __getitem__ (patch first); the bond tables concatenated by bonds() hold one sequence type and bonds "
+           "are built from nn_site() results only under a None test.",
+}
+
+
 def build():
     checks = []
     for pid, (engine, technique, text, note, ref) in sorted(CLAIMED.items()):
+        if pid in ADDENDA:
+            text = text + " " + ADDENDA[pid]
         checks.append({
             "property_id": pid,
             "quick_cmd": f"cd /verif && {PY} -m sa.check {pid} --tier quick",
